@@ -345,6 +345,9 @@ func cmdCheck(args []string) int {
 					continue
 				}
 				results[i] = e.Run()
+				if os.Getenv("VERIF_PROGRESS") != "" {
+					fmt.Fprintf(os.Stderr, "[%6.0fs] job done: %s paths=%d wall=%.0fs inconclusive=%d\n", time.Since(t0).Seconds(), jobs[i].ID, results[i].Paths, results[i].Wall, len(results[i].Inconclusive))
+				}
 			}
 		}()
 	}
